@@ -14,7 +14,7 @@ import tlc
 from common import Inconclusive, log
 
 ALL = ["NoCrash", "RuntimeAfterRegistrations", "NoEventBeforeAllNext", "DoneOnlyAfterAll", "NoGhostInvoke",
-       "StreamOwnerIsReserver", "OkHasBody", "ResetIsFresh", "EventsOnlyToSubscribers"]
+       "StreamOwnerIsReserver", "OkHasBody", "ResetIsFresh", "EventsOnlyToSubscribers", "RestoreOkOnlyAfterHook"]
 
 # name -> constants.  Measured on 16 cores: base 14 k distinct states / 3 s, misuse 27 k / 3 s, race 194 k / 12 s,
 # faults 2.9 M / 76 s, deep 
@@ -23,6 +23,9 @@ CONFIGS = {
     "misuse": dict(callers="{1}", calls=6, inv=1, exits=0, timers=0, race="FALSE", misuse="TRUE"),
     "race":   dict(callers="{1}", calls=5, inv=2, exits=0, timers=1, race="TRUE", misuse="FALSE"),
     "faults": dict(callers="{1}", calls=6, inv=2, exits=1, timers=1, race="FALSE", misuse="FALSE", shut=1),
+    # snapshot mode: restore requests, the runtime's restore poll / restore error, the hook deadline
+    "restore":  dict(callers="{1}", calls=5, inv=1, exits=0, timers=1, race="FALSE", misuse="FALSE", rest=1),
+    "restore2": dict(callers="{1}", calls=7, inv=1, exits=0, timers=1, race="FALSE", misuse="FALSE", rest=2),
     "two":    dict(callers="{1, 2}", calls=5, inv=2, exits=0, timers=1, race="FALSE", misuse="FALSE"),
     "deep":   dict(callers="{1}", calls=8, inv=2, exits=1, timers=1, race="TRUE", misuse="FALSE"),
     # simulation only (lib/mcsim.py): bounds that exhaustive search could not cover
@@ -44,6 +47,7 @@ CONSTANTS
   MaxExits = %(exits)d
   MaxTimers = %(timers)d
   MaxShutdowns = %(shut)d
+  MaxRestores = %(rest)d
   RaceTimer = %(race)s
   ExtSubs <- MCExtSubs
   IntNames = {}
@@ -59,6 +63,7 @@ CHECK_DEADLOCK FALSE
 def cfg_text(name, invariants, constraint=None, asfound="{}"):
     p = dict(CONFIGS[name])
     p.setdefault("shut", 0)
+    p.setdefault("rest", 0)
     p.update(invariants=" ".join(invariants), constraint=("CONSTRAINT " + constraint) if constraint else "", asfound=asfound)
     return TEMPLATE % p
 
